@@ -68,6 +68,13 @@ func runC10(tier string, r *rng) {
 	c10Store(70, 69, tier, r)
 	c10Store(5, 3, tier, r)
 	c10Metrics = false
+	// a peer that opens a stream and never completes its request, on a transport that honours deadlines: the server gives up
+	// after the read deadline it was CONFIGURED with, however that configuration was expressed
+	for _, how := range []string{"option", "params"} {
+		for _, sent := range [][]byte{nil, {0x0a, 0x08, 0x80}} {
+			c10Stall(how, sent, 250*time.Millisecond)
+		}
+	}
 	for _, m := range [][5]uint64{{30, 10, 100, 30, 3}, {30, 10, 100, 28, 5}, {30, 10, 1, 30, 2}, {30, 1, 100, 31, 4}, {30, 10, 40, 5, 64}, {30, 10, 100, 25, 64}} {
 		c10Moving(int(m[0]), int(m[1]), int(m[2]), m[3], m[4])
 	}
@@ -274,4 +281,62 @@ func c10Store(n, tail int, tier string, r *rng) {
 		}
 		one("rawRand", b, 0, 0)
 	}
+}
+
+// c10Stall: real loopback transport; the server is configured with read deadline d (through the functional option or through
+// WithParams); the client opens a stream, writes `sent` (nothing, or a truncated request) and waits for the server to end it.
+func c10Stall(how string, sent []byte, d time.Duration) {
+	ctx := context.Background()
+	hosts, closeAll, err := peers.NewRealHosts(2)
+	if err != nil {
+		emit("C10 kind=stall how=%s sent=%d deadline=%d => end=unavailable bucket=ok", how, len(sent), d.Milliseconds())
+		return
+	}
+	defer closeAll()
+	st, _ := prunedStore(30, 11)
+	defer st.Stop(ctx) //nolint:errcheck
+	sopts := []p2p.Option[p2p.ServerParameters]{p2p.WithNetworkID[p2p.ServerParameters](peers.NetworkID)}
+	if how == "option" {
+		sopts = append(sopts, p2p.WithReadDeadline[p2p.ServerParameters](d))
+	} else {
+		prm := p2p.DefaultServerParameters()
+		prm.ReadDeadline = d
+		sopts = append([]p2p.Option[p2p.ServerParameters]{p2p.WithParams(prm)}, sopts...)
+	}
+	srv, err := p2p.NewExchangeServer[*vhdr.Header](hosts[1], st, sopts...)
+	if err != nil {
+		panic(err)
+	}
+	if err := func() error { sc, end := startCtx(); defer end(); return srv.Start(sc) }(); err != nil {
+		panic(err)
+	}
+	defer srv.Stop(ctx) //nolint:errcheck
+	sctx, cancel := context.WithTimeout(ctx, 5*time.Second)
+	defer cancel()
+	s, err := hosts[0].NewStream(sctx, hosts[1].ID(), peers.ProtocolID())
+	if err != nil {
+		emit("C10 kind=stall how=%s sent=%d deadline=%d => end=nostream bucket=ok", how, len(sent), d.Milliseconds())
+		return
+	}
+	if len(sent) > 0 {
+		_, _ = s.Write(sent)
+	}
+	t0 := time.Now()
+	_ = s.SetReadDeadline(t0.Add(4 * time.Second))
+	buf := make([]byte, 16)
+	_, rerr := s.Read(buf)
+	took := time.Since(t0)
+	_ = s.Reset()
+	end := "eof"
+	if rerr != nil && rerr.Error() != "EOF" {
+		end = "reset"
+	}
+	bucket := "ok"
+	switch {
+	case took > 3*time.Second:
+		bucket, end = "late", "timeout"
+	case took < d/2:
+		bucket = "early"
+	}
+	emit("C10 kind=stall how=%s sent=%d deadline=%d => end=%s bucket=%s", how, len(sent), d.Milliseconds(), end, bucket)
 }
